@@ -271,7 +271,7 @@ theorem step_hsel (a : Agent) (e : Ev) : HSel False a (step a e) := by
               (fun _ => hc')
             generalize a.sendRequest now l r true (if v > 0 then some v else none) = s1 at h ⊢
             obtain ⟨a1, o1⟩ := s1
-            exact ((h.andThen (a2 := { a1 with nomIssued := a1.nomIssued ++ [v] })
+            exact ((h.andThen (a2 := { a1 with nomIssued := a1.nomIssued ++ [(v, l.addr, r.addr)] })
               (Pres.of_eq rfl rfl rfl rfl fun _ => rfl) rfl rfl).hsel).add_out _ (noReq_res _)
         · exact HSel.refl_out _ _ _ (noReq_res _)
   | restart now u p =>
